@@ -1,9 +1,9 @@
 package main
 
 import (
-	"reflect"
 	"fmt"
 	"go/types"
+	"reflect"
 	"strings"
 
 	"golang.org/x/tools/go/ssa"
